@@ -4,8 +4,10 @@
 (* after the call.                                                                                   *)
 EXTENDS Assignment, Json, IOUtils
 Traces == ndJsonDeserialize(IOEnv.TRACE_FILE)
-VARIABLES tid, l, err
-tvars == <<tid, l, err>>
+VARIABLES tid, l, err,
+          cur,      \* the CURRENT lattice world: obstacles at their current poses, remaining lanelets
+          sync      \* obstacles whose recorded relations and the registries were produced by the same network
+tvars == <<tid, l, err, cur, sync>>
 
 World(w) == [L |-> {r[1] : r \in Range(w.lan)},
              lan |-> [i \in {r[1] : r \in Range(w.lan)} |-> LET r == CHOOSE r \in Range(w.lan) : r[1] = i IN <<r[2], r[3], r[4], r[5]>>],
@@ -30,23 +32,47 @@ Geometry(W, e) ==      \* after assign / open: recorded relations equal the latt
     IN IF B = {} THEN ""
        ELSE LET x == CHOOSE x \in B : TRUE IN
             "C07." \o bad(x[1], x[2]) \o "/" \o W.ob[x[1]].kind \o "/" \o W.ob[x[1]].shape[1]
-Inverse(W, e) ==       \* always: registries are exactly the inverse of the recorded shape relations
-    IF \E lid \in W.L : Range(Reg(e, lid).st) #
-            {o \in Present(e) : W.ob[o].kind = "static" /\ lid \in RecShape(W, e, o, W.ob[o].t0)}
+Inverse(W, sy, e) ==   \* always: registries are exactly the inverse of the recorded shape relations (obstacles in sync)
+    IF \E lid \in W.L : (Range(Reg(e, lid).st) \cap sy) #
+            {o \in Present(e) \cap sy : W.ob[o].kind = "static" /\ lid \in RecShape(W, e, o, W.ob[o].t0)}
     THEN "C07.RegistryInverse/static"
-    ELSE IF \E lid \in W.L, t \in Times(W) : AtT(Reg(e, lid).dy, t) #
-            {o \in Present(e) : W.ob[o].kind = "dynamic" /\ t >= W.ob[o].t0 /\ t <= LastT(W.ob[o]) /\ lid \in RecShape(W, e, o, t)}
+    ELSE IF \E lid \in W.L, t \in Times(W) : (AtT(Reg(e, lid).dy, t) \cap sy) #
+            {o \in Present(e) \cap sy : W.ob[o].kind = "dynamic" /\ t >= W.ob[o].t0 /\ t <= LastT(W.ob[o]) /\ lid \in RecShape(W, e, o, t)}
     THEN "C07.RegistryInverse/dynamic"
+    ELSE IF \E lid \in W.L : ~(Range(Reg(e, lid).st) \subseteq Present(e))
+    THEN "C07.RegistryInverse/static-absent-obstacle"
     ELSE ""
-Clause(W, e) ==
+Clause(W, sy, e) ==
     IF e.exc # "None" THEN (IF e.op = "remove" THEN "C07.RemoveTotal" ELSE "C07.Total/" \o e.op)
     ELSE LET g == IF e.op \in {"assign", "open_xml", "open_pb"} THEN Geometry(W, e) ELSE "" IN
-         IF g # "" THEN g ELSE Inverse(W, e)
+         IF g # "" THEN g ELSE Inverse(W, sy, e)
 
-TInit == tid \in 1..Len(Traces) /\ l = 1 /\ err = 0
+(* how a call changes the lattice world (the recorded relations and registries are logged, not modelled here) *)
+ShiftPoses(ps, d) == [i \in DOMAIN ps |-> <<ps[i][1] + d[1], ps[i][2] + d[2], ps[i][3]>>]
+NextWorld(W, W0, e) ==
+    IF e.exc # "None" THEN W
+    ELSE CASE e.op = "move"           -> [W EXCEPT !.ob[e.arg] = [@ EXCEPT !.poses = ShiftPoses(@, e.d)]]
+           [] e.op = "remove_lanelet" -> [W EXCEPT !.L = @ \ {e.arg}]
+           [] e.op = "replace_network" -> [W EXCEPT !.L = W0.L]                      \* a fresh copy of the original network
+           [] e.op = "add" /\ e.fresh = 1 -> [W EXCEPT !.ob[e.arg] = W0.ob[e.arg]]   \* rebuilt from the descriptor
+           [] e.op \in {"open_xml", "open_pb"} -> [W0 EXCEPT !.L = W.L, !.ob = W.ob]   \* the file carries the current world
+           [] OTHER -> W
+NextSync(W, sy, e) ==
+    IF e.exc # "None" THEN sy
+    ELSE CASE e.op \in {"assign", "open_xml", "open_pb"} -> Present(e)
+           [] e.op = "replace_network" -> {}             \* recorded relations refer to the old network until re-assigned
+           [] e.op = "add"    -> sy \cup {e.arg}
+           [] e.op = "remove" -> sy \ {e.arg}
+           [] OTHER -> sy
+
+TInit == tid \in 1..Len(Traces) /\ l = 1 /\ err = 0 /\ cur = World(Traces[tid].world) /\ sync = {}
 TStep == /\ l <= Len(Traces[tid].ev)
-         /\ LET e == Traces[tid].ev[l]  c == Clause(World(Traces[tid].world), e)
-            IN err' = IF c = "" THEN err ELSE IF PrintT(<<"REJECT", tid, l, c>>) THEN err + 1 ELSE err
+         /\ LET e  == Traces[tid].ev[l]
+                W1 == NextWorld(cur, World(Traces[tid].world), e)
+                s1 == NextSync(cur, sync, e)
+                c  == Clause(W1, s1, e)
+            IN /\ err' = IF c = "" THEN err ELSE IF PrintT(<<"REJECT", tid, l, c>>) THEN err + 1 ELSE err
+               /\ cur' = W1 /\ sync' = s1
          /\ l' = l + 1 /\ UNCHANGED tid
 TSpec == TInit /\ [][TStep]_tvars
 ===================================================================================
